@@ -65,7 +65,8 @@ Lemma node_head_correct T n t stack level ns wrap stack' t1 consume fs e ps seg 
 Proof.
   intros H Hext Hok Hskip Hrun Hu.
   destruct (skipn_cons_nth _ _ _ _ Hskip) as (Hnth & Hskip' & Hlen).
-  unfold node_ok in Hok. apply andb_true_iff in Hok as [Hok Hcmp].
+  unfold node_ok in Hok. apply andb_true_iff in Hok as [Hok _].
+  apply andb_true_iff in Hok as [Hok Hcmp].
   apply andb_true_iff in Hok as [Hcok Hnd].
   unfold node_head in H. unfold bind_node.
   set (pcs := parse_seg (raw n)) in *.
